@@ -89,6 +89,9 @@ func vxMap(name string) map[int]int {
 				m[i] = 255
 			}
 		}
+	case "compress":
+		// sparse, compressing user map whose outputs coincide with other keys (value 50 is also the key 50, ...)
+		m = map[int]int{0: 0, 50: 25, 100: 50, 150: 75, 200: 100, 255: 128}
 	case "plateau":
 		for i := 0; i <= 255; i++ {
 			switch {
